@@ -8,7 +8,7 @@ from lib import coq_list as L, coq_nat as N
 THEOREMS = ['C02_driver_sound', 'C02_certified_table_sound', 'C02_lr0_suffix', 'C02_error_keeps_prefix',
             'C02_shift_preferred', 'C02_reduce_only_without_shift', 'C02_rr_resolution', 'C02_conflict_iff',
             'C02_la_closure', 'C02_model_table_wf', 'C02_model_table_sound', 'C02_la_complete_child', 'C02_la_complete_reduce', 'C02_complete', 'C02_automaton_complete',
-            'C02_example']
+            'C02_lr1_subset_la', 'C02_lr1_exec_subset_la', 'C02_example']
 GEN_DEPS = []
 RULE = ('random CFGs (<=5 non-terminals, <=4 terminals, <=3 alternatives of length <=3; nullable alternatives, '
         'left/right recursion, shared LR(0) cores, rule priorities, shift/reduce and reduce/reduce conflicts, 1-2 start '
@@ -25,10 +25,11 @@ TRUSTED_BASE = ['run-time wrappers that read LALR_Analyzer internals (lr0_itemse
                 'checked on every grammar of the streams and on random (X,R,G) incl. cyclic R',
                 'search oracles in Python (not proofs): Earley-style recogniser, canonical-LR(1)-merge look-aheads']
 ASSUMPTIONS = ['token strings are finite lists of terminal numbers; the lexer is C07',
-               'LA = canonical-LR(1)-merge (the LALR(1) reading of the look-ahead sets) rests on the correspondence + '
-               'search oracle, not on a theorem; completeness for conflict-free tables IS a theorem (C02_complete)']
+               'canonical LR(1) look-aheads are model look-aheads: theorem (C02_lr1_subset_la, also for the executable construction); the converse '
+               '(needs productive rule bodies) is checked inside Coq by vm_compute against LR/Lr1Merge.v on every reduced grammar of the '
+               'streams, no longer by the Python oracle alone; completeness for conflict-free tables is a theorem (C02_complete)']
 
-IMPORTS = 'From LV Require Import Cfg.Grammar LR.Driver LR.Automaton LR.AutomatonCheck LR.DriverCheck.'
+IMPORTS = 'From LV Require Import Cfg.Grammar LR.Driver LR.Automaton LR.AutomatonCheck LR.DriverCheck LR.Lr1Merge.'
 
 END = '$END'
 
@@ -836,6 +837,7 @@ def correspond(ctx):
     rng = ctx.rng
     n_gram = int(os.environ.get('C02_N', 0)) or ctx.scale(200, 2400) * (3 if ctx.widen else 1)
     acases, ameta = [], []
+    lcases, lmeta = [], []
     dcases, dmeta = [], []
     for gi in range(-len(FIXED), n_gram):
         if gi < 0:
@@ -889,6 +891,11 @@ def correspond(ctx):
         ac['table'] = []
         if tab is not None:
             ac['table'] = tab['rows']
+        if reduced and len(d['roots']) == 1:
+            # Coq-side oracle: model look-aheads == canonical-LR(1)-merge (LR/Lr1Merge.v), by vm_compute
+            lcases.append('(%s,%d,%d)' % (c_rules(d), d['roots'][0], 400))
+            lmeta.append(dict(grammar=text, starts=g['starts']))
+            ctx.count('coq-lr1-merge', key=text, nontrivial=(nstates >= 4 and proper))
         acases.append(c_acase(ac))
         ameta.append(dict(grammar=text, starts=g['starts'], cyc=cyc, viol=bool(viol), error=d['error']))
         # --- model vs code: the driver, and membership ---
@@ -973,6 +980,18 @@ def correspond(ctx):
                 no_longer_checks='model/implementation agreement (stages %s of AutomatonCheck.stages)' % stages,
                 grammar=m['grammar'], starts=m['starts'], kind='analysis'), False,
                 'model and LALR_Analyzer disagree at stages %s; the LR(1)-merge/membership oracles hold here' % stages)
+
+    # --- Coq: the model's look-ahead sets vs the executable canonical-LR(1)-merge specification ---
+    bad, errs = ctx.coq_bad_indices('c02l', IMPORTS, 'check_lr1', lcases, chunk=max(8, len(lcases) // 6 + 1))
+    for e in errs:
+        ctx.violation('correspondence:coq-eval', {'error': e[-600:], 'no_longer_checks': 'coq evaluation of LR(1)-merge cases'},
+                      False, e[-300:])
+    for i in bad:
+        m = lmeta[i]
+        ctx.violation('correspondence:LR/Automaton look-aheads vs LR/Lr1Merge', dict(
+            no_longer_checks='model LA = canonical-LR(1)-merge look-aheads (check_lr1)', grammar=m['grammar'],
+            starts=m['starts'], kind='analysis'), False,
+            'the model of lalr_analysis.py and the Coq canonical-LR(1)-merge specification disagree on a reduced grammar')
 
     # --- Coq: model driver on lark's own table vs feed_token, plus the table certificate ---
     bad, errs = ctx.coq_bad_indices('c02d', IMPORTS, 'check_dcase', dcases, chunk=max(8, len(dcases) // 6 + 1))
